@@ -443,3 +443,8 @@ PROPS['C14']['bounds'] += ' Thorough: N up to 8300 (eight full chunks and a part
 for pid in ('C09', 'C11'):
     PROPS[pid]['kani']['quick'][0]['filters'] += ['c03::q::seq::zst']
     PROPS[pid]['kani']['thorough'][0]['filters'] += ['c03::q::seq::zst', 'c03::t::seq::zst']
+
+# C03: the panic-free path of the functional operations through engine M as well (ownership of every operand, needs_drop of either element
+# type symbolic and independent: a shortcut keyed on the wrong type's needs_drop is a double drop without any panic)
+PROPS['C03']['mir']['quick'].append(mrun(['map', 'zip', 'fold', 'generate', 'zip.owned_ref', 'zip.ref_owned', 'clone'], nmax=3))
+PROPS['C03']['bounds'] += ' M: generate / map / zip (owned, owned x &, & x owned) / fold / clone with N <= 3 and needs_drop of each element type symbolic.'
